@@ -376,6 +376,37 @@ def solid_and_conversion(ctx):
         if got.shape != want.shape or np.any(_gt(np.abs(got - want), 1e-12 * (1 + np.abs(want)))):
             ctx.violation("solid:few-points:differs-from-definition", f"solid_harmonics for {npts} point(s) given as rows (r, azimuth, polar) "
                           f"differs from sqrt(4pi/(2l+1)) r^l Y_lm (shape {got.shape})", {"route": "solid", "npoints": npts})
+    # -- high degrees at radii where r^l leaves the float64 range (the routine works and answers in extended precision):
+    # the ratio to sqrt(4pi/(2l+1)) Y_lm, taken in the result's own precision, is r^l (added after seeded change C08-K: integer
+    # exponents moved the power into float64 -- zeros below 1e-324, infinities above 1e308)
+    L = 80
+    ang_t, ang_p = np.array([0.7, 2.1, 4.4, 5.9]), np.array([0.4, 1.3, 2.0, 2.9])
+    yy = harm.ylm_f64_angles(L, ang_t, ang_p)
+    lm = list(harm.horton_lm(L))
+    for rad in (1e-5, 2e-3, 0.5, 900.0, 1e5):
+        ctx.count(len(lm), section="solid")
+        with warnings.catch_warnings(), np.errstate(all="ignore"):
+            warnings.simplefilter("ignore")
+            got = solid_harmonics(L, np.stack([np.full(4, rad), ang_t, ang_p], axis=1))
+        got = np.asarray(got)
+        wide = got.dtype.kind == "f" and np.finfo(got.dtype).maxexp > 2000      # extended precision available on this platform
+        worst, where = 0.0, None
+        for row, (l, m) in enumerate(lm):
+            power = np.longdouble(rad) ** l
+            if not wide and not (1e-290 < float(power) < 1e290):
+                continue
+            base = np.sqrt(4 * PI / (2 * l + 1)) * yy[row]
+            ok = np.abs(base) > 1e-3       # away from the zeros of Y_lm, where the float64 oracle is relatively accurate
+            if not np.any(ok):
+                continue
+            ratio = np.asarray(got[row], dtype=np.longdouble)[ok] / np.asarray(base[ok], dtype=np.longdouble) / power
+            dev = float(np.max(np.abs(ratio - 1))) if np.all(np.isfinite(ratio.astype(float))) else np.inf
+            if _gt(dev, worst):
+                worst, where = dev, (l, m)
+        ctx.nontrivial(("solid-extreme", rad), section="solid")
+        if _gt(worst, 1e-9):
+            ctx.violation("solid:extreme-radius:differs-from-definition", f"solid harmonics up to degree {L} at r = {rad}: (l, m) = {where} deviates from "
+                          f"sqrt(4pi/(2l+1)) r^l Y_lm by the relative amount {worst:.3e} (result dtype {got.dtype})", {"route": "solid", "radius": rad})
     # -- coordinate conversion
     for centre in (None, np.array([1.0, -2.0, 0.5])):
         c = np.zeros(3) if centre is None else centre
